@@ -323,11 +323,11 @@ theorem sim_makeRef_go {σ : Sh} (orig : Nat) (name : String) :
           exact ⟨frameR_setStore hfr1 name r, frameDec_setStore (hR.dec orig ft1 hte1) name hr⟩
         · intro _ _ s1 t1 hR1 _
           have hjp : ∀ (rd rd' : Nat), rd = rd' → SimAt σ
-              (if (!(isConstant name && rd == 0) && !isFuncObj obj) = true then do
+              (if (!(isConstant name && rd == 0) && !(isFuncObj obj && rd == 0)) = true then do
                   let __r ← modifyFrame (sh σ orig) fun f => { f with getMiss := f.getMiss + 1 }
                   (fun _ => pure (some (ren σ r)) : Unit → M (Option Obj)) __r
                 else pure (some (ren σ r)))
-              (if (!(isConstant name && rd' == 0) && !isFuncObj obj) = true then do
+              (if (!(isConstant name && rd' == 0) && !(isFuncObj obj && rd' == 0)) = true then do
                   let __r ← modifyFrame orig fun f => { f with getMiss := f.getMiss + 1 }
                   (fun _ => pure (some r) : Unit → M (Option Obj)) __r
                 else pure (some r)) s1 t1 (QOpt σ) := by
@@ -401,7 +401,7 @@ theorem sim_envGet {σ : Sh} {s t : St} (hR : StR σ s t) (e : Nat) (name : Stri
           else do
             let tgt ← refValue re rn
             let __do_lift ← getFrame re
-            if (!(isConstant rn && __do_lift.depth == 0) && !isFuncObj tgt) = true then do
+            if (!(isConstant rn && __do_lift.depth == 0) && !(isFuncObj tgt && __do_lift.depth == 0)) = true then do
                 modifyFrame (sh σ e) fun f => { f with getMiss := f.getMiss + 1 }
                 pure (some (Obj.ref re rn))
               else pure (some (Obj.ref re rn))
@@ -421,7 +421,7 @@ theorem sim_envGet {σ : Sh} {s t : St} (hR : StR σ s t) (e : Nat) (name : Stri
           else do
             let tgt ← refValue re rn
             let __do_lift ← getFrame re
-            if (!(isConstant rn && __do_lift.depth == 0) && !isFuncObj tgt) = true then do
+            if (!(isConstant rn && __do_lift.depth == 0) && !(isFuncObj tgt && __do_lift.depth == 0)) = true then do
                 modifyFrame e fun f => { f with getMiss := f.getMiss + 1 }
                 pure (some (Obj.ref re rn))
               else pure (some (Obj.ref re rn))
